@@ -80,7 +80,9 @@ def hot(
             nonlocal is_stopped
 
             with lock:
-                for observer in observers:
+                # iterate over a snapshot: a terminal notification makes each
+                # subscriber detach itself, which removes it from the list
+                for observer in list(observers):
                     notification.accept(observer)
 
                 if notification.kind in ("C", "E"):
